@@ -11,7 +11,7 @@ CONSTANTS
   MaxPay = 2
   Cap = 2
   MaxNest = 1
-  Ops = {"CtxDeregister", "DropRef", "Dispatch", "CtxQuit", "ModStop", "Tell", "Unstash"}
+  Ops = {"CtxDeregister", "DropRef", "Dispatch", "CtxQuit", "ModStop", "ModPause", "ModResume", "Tell", "Unstash"}
   CbOps = {"Stash", "Unstash"}
   EvalVals = {TRUE}
   Prios = {"N"}
